@@ -91,4 +91,5 @@ def main(tier, replay=None):
                         "in-contract generation: no Tuple holding the same object twice (open finding F-C04-tuple-dup), "
                         "List resize growth only for Int elements (zero-filled elements)"]
     camp.report()
+    runner.run_pinned(chk, {"h_seq": harness})
     return chk.finish()
